@@ -302,7 +302,8 @@ def _f1(seedoff):
 
 
 REGISTRY["C04"]["teq"].append(_f1(4))
-# refused writes (memory limit) on persistent stores, next to records still in the write-behind buffer
+# refused writes (memory limit; memory-only and persistent): next to records still in the write-behind buffer (C01, C13),
+# and with explicit timestamps that a failing call must not leave in the clock (C12)
 REGISTRY["C01"]["teq"].append(seq({"only": "limited", "n": 10, "ops": 80, "seedoff": 101}, {"only": "limited", "seedoff": 101}))
 REGISTRY["C13"]["teq"].append({"engine": "conc", "quick": {"n": 150, "mode": "hist", "accounting": 1, "seedoff": 13}, "thorough": {"n": 4000, "mode": "hist", "accounting": 1, "seedoff": 13},
                                 "oracle": True, "mismatch_is_failure": False, "timeout": 3400,
@@ -312,6 +313,7 @@ REGISTRY["C13"]["teq"].append({"engine": "conc", "quick": {"n": 24, "mode": "mem
                                 "oracle": True, "mismatch_is_failure": False, "timeout": 3400,
                                 "nontrivial": lambda case, res: "refused=0" not in case, "distinct_key": lambda case, res: case,
                                 "what": "four writers (creators, growers, deleters; slice, Bytes and insert-if-absent spellings) race for 60 ms against a memory limit that admits only some of them while a monitor thread samples memory_usage(): a sample above the limit is the violation; afterwards the accounting must be exact"})
+REGISTRY["C12"]["teq"].append(seq({"only": "limited", "autocheck": 1, "n": 6, "ops": 80, "seedoff": 212}, {"only": "limited", "autocheck": 1, "seedoff": 212}))
 REGISTRY["C13"]["teq"].append(seq({"only": "limited", "n": 10, "ops": 80, "seedoff": 113}, {"only": "limited", "seedoff": 113}))
 REGISTRY["C11"]["teq"].append(_f1(11))
 
